@@ -239,6 +239,29 @@ def i_SRAI(ins, fmap):
         fmap[dst] = fmap(oper(OP_ASR, src1, src2))
 
 
+# RV64I *W forms: 32-bit operation on the low words, result sign-extended
+
+@__npc
+def i_SLLIW(ins, fmap):
+    dst, src1, src2 = ins.operands
+    if dst is not zero:
+        fmap[dst] = fmap((src1[0:32] << src2).signextend(64))
+
+
+@__npc
+def i_SRLIW(ins, fmap):
+    dst, src1, src2 = ins.operands
+    if dst is not zero:
+        fmap[dst] = fmap((src1[0:32] >> src2).signextend(64))
+
+
+@__npc
+def i_SRAIW(ins, fmap):
+    dst, src1, src2 = ins.operands
+    if dst is not zero:
+        fmap[dst] = fmap(oper(OP_ASR, src1[0:32], src2).signextend(64))
+
+
 @__npc
 def i_LUI(ins, fmap):
     dst, src1 = ins.operands
